@@ -194,3 +194,9 @@ Definition shot_check (n : nat) (xs : list xop) (psi : list Zi) (draws : list na
       end
   | None => [false; false; false; false]
   end.
+
+(* ---- deterministic bit-flip noise (p0 = p1 in {0,1} per qubit): the noisy shot is the
+   noiseless one with the bits of the flipped qubits inverted; mask is over the measured qubits
+   in the order they were given *)
+Definition flip_shot (k : nat) (mask : bits) (s : nat) : nat :=
+  to_dec (map (fun p => xorb (fst p) (snd p)) (combine (to_bin k s) mask)).
